@@ -9,7 +9,7 @@ from pactisim import env, runner, sessbatch
 
 PROP = "C13"
 ORACLES = ["O1", "O2", "O3", "O4", "O5"]
-RUNS = {"quick": 1000, "thorough": 40_000}
+RUNS = {"quick": 1200, "thorough": 40_000}
 WALL_CAP = {"quick": 1500.0, "thorough": 5 * 3600.0}
 CHUNK = 10
 
